@@ -573,3 +573,48 @@ func StoreThenWalk(seed uint64) *Case {
 		}
 	}
 }
+
+// ReuseTrap is a C08 sub-profile: one static load executes for real with an
+// old base register and, later, on the wrong path of a late-resolving taken
+// branch right behind a producer of its base register (so it is forwarded and
+// still in flight when the flush comes). Whatever the cancelled instance
+// leaves inside the parsed program meets the real instance of the next machine.
+func ReuseTrap(seed uint64) *Case {
+	for try := uint64(0); ; try++ {
+		r := rng.New(rng.Derive(seed, 0x7e5, try))
+		p := &Profile{Name: "reuse-trap", PoolMin: 4, PoolMax: 8, AddrRegsMax: 2, MemSizes: []int{1024, 4096}, WAlu: 1}
+		b := NewBuilder(r, p)
+		base, val, flag, slow := b.Pool[0], b.Pool[1], b.Pool[2], b.Pool[3]
+		b.Init.Regs[flag] = 0
+		b.Init.Regs[base] = int32(64 * r.Range(1, 4))
+		slowAddr := int32(64 * r.Range(6, 12))
+		b.putWord(int(slowAddr), 0) // the late branch is taken
+		for k := r.Intn(3); k > 0; k-- {
+			b.Emit(isa.Inst{Op: isa.NOP})
+		}
+		b.Emit(isa.Inst{Op: isa.J, Label: "L"})
+		b.Place("M")
+		b.Emit(isa.Inst{Op: isa.LI, Rd: flag, Imm: 1})
+		b.Emit(isa.Inst{Op: isa.LW, Rd: slow, Rs1: isa.Zero, Imm: slowAddr})
+		b.Emit(isa.Inst{Op: isa.BEQZ, Rs1: slow, Label: "OUT"})
+		for k := r.Intn(2); k > 0; k-- {
+			b.Emit(isa.Inst{Op: isa.NOP})
+		}
+		b.Emit(isa.Inst{Op: isa.ADDI, Rd: base, Rs1: base, Imm: int32(64 * r.Range(1, 3))})
+		b.Place("L")
+		b.Emit(isa.Inst{Op: b.loadOp(), Rd: val, Rs1: base, Imm: int32(4 * r.Intn(8))})
+		b.Emit(isa.Inst{Op: isa.BEQZ, Rs1: flag, Label: "M"})
+		b.Place("OUT")
+		if r.Bool() {
+			b.Emit(isa.Inst{Op: isa.ADD, Rd: b.Pool[len(b.Pool)-1], Rs1: val, Rs2: val})
+		}
+		if r.Bool() {
+			b.Emit(isa.Inst{Op: isa.RET})
+		}
+		b.Prog.Labels["END"] = len(b.Prog.Insts)
+		b.Tag("reuse-trap")
+		if c := Finish(b, 2000, false); c != nil {
+			return c
+		}
+	}
+}
